@@ -645,7 +645,9 @@ class PageTemplate(BaseRenderer):
                 return str(getattr(img, parameter))
         except KeyError: pass
 
-        return '&%s-%s;' % (filename, parameter)
+        # Not an image placeholder: document text that merely looks like
+        # one stays as it was written (with its ampersand escaped)
+        return m.group(0)
 
 
 # Set Renderer variable so that plastex will know how to load it
